@@ -5,12 +5,26 @@ def _e(name, fn, op, repl, reach, **kw):
     d.update(kw)
     return d
 _DV = ["CODictRdByte", "CODictWrByte", "CODictRdLong", "COIfCanSend"]
+_B5 = "build configuration CO_EMCY_N=5 errors (all tables, classes, codes, states symbolic); the 8-error configuration is the thorough group of the same name without suffix"
+_T = {"C15": "thorough", "C01": "thorough"}
+_Q = {"C15": "quick", "C01": "quick"}
+_T20 = {"C15": "thorough", "C01": "thorough", "C20": "thorough"}
+_Q20 = {"C15": "quick", "C01": "quick", "C20": "quick"}
+def _n5(op, extra=()):
+    return ["VW_OP=%d" % op, "CO_EMCY_N=5"] + list(extra)
 GROUPS = [
- _e("emcy_set", "COEmcySet", 0, _DV + ["COEmcyHistAdd"], ["a", "b"]),
- _e("emcy_clr", "COEmcyClr", 1, _DV, ["a", "b"]),
- _e("emcy_get", "COEmcyGet", 2, [], []),
- _e("emcy_cnt", "COEmcyCnt", 3, [], ["a"]),
- _e("emcy_reset", "COEmcyReset", 4, _DV, ["a"], timeout=1200, object_bits=12, props={"C15": "thorough", "C01": "thorough"}),
+ _e("emcy_set", "COEmcySet", 0, _DV + ["COEmcyHistAdd"], ["a", "b"], props=_T),
+ _e("emcy_clr", "COEmcyClr", 1, _DV, ["a", "b"], props=_T),
+ _e("emcy_get", "COEmcyGet", 2, [], [], props=_T),
+ _e("emcy_cnt", "COEmcyCnt", 3, [], ["a"], props=_T),
+ _e("emcy_reset", "COEmcyReset", 4, _DV, ["a"], timeout=1200, object_bits=12, props=_T20),
+ _e("emcy_reset_silent", "COEmcyReset", 4, _DV, ["a"], timeout=1200, object_bits=12, props=_T20, defs=["VW_OP=4", "CO_EMCY_N=8", "VW_SILENT_ONLY"]),
+ _e("emcy_set5", "COEmcySet", 0, _DV + ["COEmcyHistAdd"], ["a", "b"], props=_Q, defs=_n5(0), bounded=_B5),
+ _e("emcy_clr5", "COEmcyClr", 1, _DV, ["a", "b"], props=_Q, defs=_n5(1), bounded=_B5),
+ _e("emcy_get5", "COEmcyGet", 2, [], [], props=_Q, defs=_n5(2), bounded=_B5),
+ _e("emcy_cnt5", "COEmcyCnt", 3, [], ["a"], props=_Q, defs=_n5(3), bounded=_B5),
+ _e("emcy_reset5", "COEmcyReset", 4, _DV, ["a"], timeout=1200, object_bits=12, props=_Q20, defs=_n5(4), bounded=_B5),
+ _e("emcy_reset_silent5", "COEmcyReset", 4, _DV, ["a"], timeout=1200, object_bits=12, props=_Q20, defs=_n5(4, ["VW_SILENT_ONLY"]), bounded=_B5),
 ]
 
 def _h(name, fn, op):
